@@ -138,6 +138,18 @@ fn d63() -> Result<(), String> {
 fn d64() -> Result<(), String> {
     expect_lines(run_batch(T3, "SELECT make_timestamp(2024, 2, 29, 13, 45, 12, 0) FROM t", "a;1;1\n"), &["p0: 2024-02-29 13:45:12.000"])
 }
+// D66 (C02; fixed /repo 265d413): a JSON number with a fraction or exponent was read by serde_json's default float reader
+// (significand as f64, then one multiplication / division by a power of ten), which can be one unit in the last place off
+// the nearest REAL; `f64::from_str` of the same text (a cast, a regex column) gives the nearest one. With `float_roundtrip` both agree.
+fn d66() -> Result<(), String> {
+    const TJ: &str = "CREATE TABLE t({.x} => x REAL);";
+    for lit in ["239.21e-27", "2.2250738585072011e-308"] {
+        let line = format!("{{\"x\":{}}}\n", lit);
+        expect_lines(run_batch(TJ, &format!("SELECT x = '{}'::real FROM t", lit), &line), &["p0: true"])
+            .map_err(|e| format!("JSON number {} is not the REAL f64::from_str gives for the same text: {}", lit, e))?;
+    }
+    Ok(())
+}
 fn d16() -> Result<(), String> {
     expect_error(run_batch(T3, "SELECT SUM(v) FROM t", "a;9223372036854775807;1\nb;1;1\n"))
 }
@@ -432,6 +444,7 @@ pub fn all() -> Vec<Witness> {
         w!("D23", &["C08"], "aggregate DISTINCT without HAVING keeps duplicates", d23),
         w!("D63", &["C03"], "TIMESTAMP - INTERVAL (and * and /) adds the interval", d63),
         w!("D64", &["C03"], "make_timestamp with the README's seven arguments is an undefined function", d64),
+        w!("D66", &["C02"], "a JSON number with fraction / exponent is not the nearest REAL (one unit in the last place off f64::from_str of the same text)", d66),
         w!("D60", &["C11"], "REAL keys 0.0 / -0.0: follow mode and batch mode show different representatives of one group", d60),
         w!("D65", &["C11"], "follow mode, CSV, aggregate statement: the header was shown on the first screen only (fixed e80a2b6)", d65),
         w!("D61", &["C11"], "follow mode, aggregate over a join: a line with several partners showed one table per partner, concatenated (fixed 7277b4c)", d61),
